@@ -18,7 +18,7 @@ import (
 	"verif/worker"
 )
 
-var c05Payloads = []int{0, 1, 100, 65535, 65536, 65537, 200000}
+var c05Payloads = []int{0, 1, 100, 4095, 4096, 65535, 65536, 65537, 200000}
 
 // c05Session generates one session over the private subtree P.
 func c05Session(r *rand.Rand, P string, n int) ([]wire.Req, []string) {
@@ -56,7 +56,24 @@ func c05Session(r *rand.Rand, P string, n int) ([]wire.Req, []string) {
 			}
 			for c := 0; c < chunks; c++ {
 				sz := c05Payloads[r.Intn(len(c05Payloads))]
-				add(fmt.Sprintf("WRITE %d", sz), wire.Write(tree.Content(r.Int63(), int64(sz))))
+				pay := tree.Content(r.Int63(), int64(sz))
+				kind := ""
+				switch r.Intn(6) {
+				case 0: // nothing but zeros (what a sparse-aware writer would skip)
+					clear(pay)
+					kind = " zeros"
+				case 1: // data with a tail of zeros
+					if sz > 16 {
+						clear(pay[sz/3:])
+						kind = " zero-tail"
+					}
+				case 2: // zeros first
+					if sz > 16 {
+						clear(pay[:sz/2])
+						kind = " zero-head"
+					}
+				}
+				add(fmt.Sprintf("WRITE %d%s", sz, kind), wire.Write(pay))
 			}
 			if kind == "new" || kind == "existing" || kind == "in-subdir" {
 				switch r.Intn(4) {
@@ -69,7 +86,7 @@ func c05Session(r *rand.Rand, P string, n int) ([]wire.Req, []string) {
 				}
 			}
 		case 3:
-			add("WRITE stray", wire.Write(tree.Content(r.Int63(), int64(c05Payloads[r.Intn(4)]))))
+			add("WRITE stray", wire.Write(tree.Content(r.Int63(), int64(c05Payloads[r.Intn(5)]))))
 		case 4:
 			t := []string{"/old.bin", "/new1.bin", "/full", "/missing", "/gone", "/full/x", "/ldir", "/lfile"}[r.Intn(8)]
 			add("DELETE "+t, wire.P(wire.OpDelete, P+t))
